@@ -102,6 +102,16 @@ CHECKS = {
              "mating move is game-theoretic and NOT decided.",
         design_ref="DESIGN.md section 4, C17",
         note=TB_COMMON + " Relies on C08 (the hash identifies the position)."),
+    "C05": dict(
+        category="other",
+        technique="static analysis: must-pass-through (edge-sensitive) analysis of Evaluator::evaluate, conjunct inventory of the king-escape shortcut, guard "
+                  "extraction of the terminal returns, monotonicity abstract interpretation plus constant folding of mate_in_ply, shared legality-filter rule of C01",
+        text="Decides structural clauses V1-V3: the heuristic part is reachable only with a legal move present or via (not in check and an EMPTY, unattacked "
+             "king neighbour), mate values are returned only under no-move and check with the sign determined by perspective, stalemate is the constant 0, the mate "
+             "score is non-increasing in ply and never below the threshold shared with is_terminal and the search cut-off. Not decided: a numeric bound keeping "
+             "heuristic scores of non-terminal positions inside the thresholds.",
+        design_ref="DESIGN.md section 4, C05",
+        note=TB_COMMON + " Relies on C01 (legal move list; its G4 rule is re-run here) and C10 (check detection)."),
 }
 
 NOT_BUILT_REASON = "check not built yet (see DESIGN.md for the plan)"
